@@ -115,6 +115,7 @@ func WriteFileAtomic(filename string, data []byte, perm os.FileMode) (err error)
 	// Clean up in any case. Defer stacking order is last-in-first-out.
 	defer os.Remove(f.Name())
 	defer f.Close()
+	verifPoint("tempfile:created")
 
 	if n, err := f.Write(data); err != nil {
 		return err
@@ -124,6 +125,8 @@ func WriteFileAtomic(filename string, data []byte, perm os.FileMode) (err error)
 	// Close the file before renaming it, otherwise it will cause "The process
 	// cannot access the file because it is being used by another process." on windows.
 	f.Close()
+	verifPoint("tempfile:written")
+	defer verifPoint("tempfile:renamed")
 
 	return os.Rename(f.Name(), filename)
 }
